@@ -426,7 +426,15 @@ func (ms *Modules) Process() []error {
 	// an entry does not exist.
 	dvP := map[string]bool{} // cache the modules we've handled since we have both modname and modname@revision-date
 	for _, devmods := range []map[string]*Module{ms.Modules, ms.SubModules} {
-		for _, m := range devmods {
+		// When two modules deviate the same property of the same node the
+		// last one wins, so the order must not be that of map iteration.
+		names := make([]string, 0, len(devmods))
+		for name := range devmods {
+			names = append(names, name)
+		}
+		sort.Strings(names)
+		for _, name := range names {
+			m := devmods[name]
 			e := ToEntry(m)
 			if !dvP[e.Name] {
 				errs = append(errs, e.ApplyDeviate(ms.ParseOptions.DeviateOptions)...)
